@@ -157,12 +157,23 @@ def _wrap_csa(srs):
     srs.createSharedArray = createSharedArray
 
 
+HOOKED = set()
+
+
 def install():
+    """Wrap the worker functions that exist.  If the library's workers have been renamed
+    or merged the event-log monitors have nothing to observe for those runs (counted as
+    `hook-missing`); serial-versus-parallel byte equality, the deciding oracle, still
+    applies to every run."""
     from pyyeti import srs, fdepsd
-    if getattr(srs._dosrs, "_vf_orig", None) is None:
+    if not HOOKED and getattr(getattr(srs, "_dosrs", None), "_vf_orig", None) is None:
         for name in KINDS[:4]:
-            _wrap_worker(srs, name)
-        _wrap_worker(fdepsd, "_dofde")
+            if callable(getattr(srs, name, None)):
+                _wrap_worker(srs, name)
+                HOOKED.add(name)
+        if callable(getattr(fdepsd, "_dofde", None)):
+            _wrap_worker(fdepsd, "_dofde")
+            HOOKED.add("_dofde")
         _wrap_csa(srs)
     return srs, fdepsd
 
@@ -277,6 +288,15 @@ def gen_run(seed, i, tier):
             sg = r.integers(-4, 5, n).astype(float)
             k0 = int(r.integers(5, n - 8))
             sg[k0:k0 + 3] = (-4.0, 4.0, -4.0)         # largest cycle amplitude is 4
+            if (i // 10) % 2 == 1:
+                # the global extreme is the LATER, slightly larger of two nearly equal
+                # adjacent samples (difference far below the reversal tolerance): the
+                # reported SRS is the maximum of the response, not of the reversal points
+                k1 = int(r.integers(5, n - 8))
+                while abs(k1 - k0) < 6:
+                    k1 = int(r.integers(5, n - 8))
+                sg[k1:k1 + 2] = (5.0, 5.0 + 3e-9)
+                run["near_tie_extreme"] = True
             run["sig"] = sg
             run["opts"] = dict(detrend=False, winends=None, hpfilter=None,
                                rolloff="none")
@@ -472,12 +492,16 @@ def run_one(sh, srs, fdepsd, run):
         sh.count("freq:repeated")
     sh.count("csa-filled", len(_CSA.get("filled", [])))
 
-    sh.count("mon:log-check")
-    if not pooled:
-        sh.violation("no-pool-observed", case, {"facts": {k: v for k, v in facts.items()
-                                                          if k != "order"}}, tags)
-    for knd, det in problems:
-        sh.violation(knd, case, det, tags)
+    if kind in HOOKED:
+        sh.count("mon:log-check")
+        if not pooled:
+            sh.violation("no-pool-observed", case, {"facts": {k: v for k, v in facts.items()
+                                                              if k != "order"}}, tags)
+        for knd, det in problems:
+            sh.violation(knd, case, det, tags)
+    else:
+        sh.count("cell:hook-missing:" + kind)
+        facts = {}
     if facts:
         sh.count("ord#" + core.digest([LF, list(facts["order"])]))
         sh.count("t2p#" + core.digest([LF, list(facts["task2pid"])]))
